@@ -20,6 +20,7 @@ Static clauses decided (necessary conditions of C31):
          values are applied with _db_set_ (by that function, or by __setstate__ in the three-element form).
  CYCLE   related objects are not inside the *arguments* of the reduce value (pickle writes those before it memoises the object,
          so objects that refer to each other would recurse until RecursionError): they travel in the state element, or as keys.
+ ARGS    every parameter of an unpickling function is read; a collection is declared fully loaded only after the pickled items were put into it.
  FIRSTCOL a raw primary key is reduced to its first column only under a guard on the number of key columns (not of key attributes).
  GIVEN   every object put into the bag is processed in full whatever was visited before; a related-object visit never replaces an entry.
  MIX     a Bag refuses objects of another database or another session.
@@ -130,6 +131,47 @@ def run(ctx):
         ctx.ob('C31-CYCLE.related-objects-are-not-pickled-inside-the-reduce-arguments', rd, v, ok,
                '' if ok else 'Entity.__reduce__ puts every loaded attribute value, related objects included, into the arguments `%s` of its reduce value: pickle writes those before it '
                'memoises the object, so loaded objects that refer to each other (both sides of a one-to-one) cannot be pickled -- RecursionError' % args_txt[:40], node=v)
+    # ---------------------------------------------------------------- ARGS
+    # whatever a __reduce__ of core.py hands to pickle is used on the way back: every parameter of the module-level function it names is read
+    # (unpickle_setwrapper used to ignore `items`: the collection came back empty); and a collection is declared fully loaded only after the
+    # pickled items -- or something derived from them -- were put into its SetData
+    nred = 0
+    for f in repo.rule_funcs():
+        if f.mod.name != CORE or f.name != '__reduce__' or f.cls is None: continue
+        for r_ in [x.value for x in walk_no_nested(f.node) if isinstance(x, ast.Return) and isinstance(x.value, ast.Tuple) and x.value.elts and isinstance(x.value.elts[0], ast.Name)]:
+            callee = repo.fn_opt(CORE, r_.elts[0].id)
+            if callee is None or callee.cls is not None: continue
+            nred += 1
+            loads = {n_.id for n_ in ast.walk(callee.node) if isinstance(n_, ast.Name) and isinstance(n_.ctx, ast.Load)}
+            unused = [p_ for p_ in callee.params if p_ not in loads]
+            ctx.ob('C31-ARGS.unpickling-function-uses-everything-it-was-given', callee, callee.node, not unused,
+                   '' if not unused else '%s never reads its parameter %s: that part of what %s.__reduce__ pickled is dropped on the way back' % (callee.name, unused, f.cls.name), node=callee.node)
+    ctx.floor('C31-ARGS', nred, 3, '__reduce__ methods naming a module-level unpickling function')
+    us = repo.fn(CORE, 'unpickle_setwrapper'); gu = cg.cfg(us)
+    marks_ = [x for x in gu.nodes if x.kind == 'stmt' and isinstance(x.ast, ast.Assign) and any(isinstance(t, ast.Attribute) and t.attr == 'is_fully_loaded' for t in x.ast.targets)
+              and isinstance(x.ast.value, ast.Constant) and x.ast.value.value is True]
+    ctx.need(marks_ and len(us.params) >= 3, 'C31-ARGS: unpickle_setwrapper no longer marks the collection as fully loaded')
+    itemsp = us.params[2]
+    derived = {itemsp}
+    for _ in range(3):
+        for st in walk_no_nested(us.node):
+            if isinstance(st, ast.Assign) and any(isinstance(n_, ast.Name) and n_.id in derived for n_ in ast.walk(st.value)):
+                derived |= {t.id for t in st.targets if isinstance(t, ast.Name)}
+    def fills(n):
+        if n.kind != 'stmt' or n.ast is None: return False
+        a = n.ast
+        if isinstance(a, ast.AugAssign) and isinstance(a.target, ast.Name) and any(isinstance(x, ast.Name) and x.id in derived for x in ast.walk(a.value)): return True
+        return any(isinstance(c.func, ast.Attribute) and c.func.attr in ('update', 'add', '__ior__') and any(isinstance(x, ast.Name) and x.id in derived for a_ in c.args for x in ast.walk(a_)) for c in n.calls())
+    fill_nodes = [n for n in gu.nodes if fills(n)]
+    def nonempty(text, node):
+        if isinstance(node, ast.Name) and node.id in derived: return True          # scenario: there are pickled items the session does not know yet
+        return None
+    eo_u = scenario_edges(gu, us.node, nonempty, resolve=False)
+    for m_ in marks_:
+        ok = bool(fill_nodes) and gu.dominated(m_, fill_nodes, edge_ok=eo_u)
+        ctx.ob('C31-ARGS.collection-is-fully-loaded-only-with-the-pickled-items', us, m_.ast, ok,
+               '' if ok else 'unpickle_setwrapper declares the collection fully loaded without having put the pickled items into it: the unpickled collection is empty and the session '
+               'answers len() / count() / `in` for the owner from that empty state', node=m_.ast)
     # ---------------------------------------------------------------- FIRSTCOL
     # a raw primary key is a tuple of *column* values.  Reporting only its first column (`pk[0]`) is injective exactly when the key has one column:
     # under the scenario "the key has several columns" no `<raw key>[0]` is reachable.  The number of key *attributes* is another thing -- one
@@ -296,6 +338,7 @@ MUTANTS = [
     dict(id='C31-m2', file='pony/orm/serialization.py', fn='Bag._reduce_composite_pk', old=".replace('*', '**').replace(',', '*,')", new=".replace(',', '*,')", expect='C31-ESC'),
     dict(id='C31-m3', file='pony/orm/serialization.py', fn='Bag.to_dict', old='    def to_dict(bag):\n        bag.dicts.clear()\n', new='    def to_dict(bag):\n', expect='C31-FRESH.scratch-table-cleared-before'),
     dict(id='C31-m4', file='pony/orm/core.py', fn='Entity.to_dict', old='        if cache is not None and cache.is_alive and cache.modified: cache.flush()\n', new='', expect='C31-FLUSH'),
+    dict(id='C31-args1', file='pony/orm/core.py', fn='unpickle_setwrapper', old="    new_items = set(items) - setdata\n    if new_items:\n        setdata |= new_items\n        if attr.reverse.is_collection: attr.reverse.db_reverse_add(new_items, obj)\n", new="", expect='C31-ARGS'),
     dict(id='C31-giv1', file='pony/orm/serialization.py', fn='Bag.to_dict', old="                bag._process_object(obj)  # in full, also when it was entered as a related object of another one before", new="                if obj not in bag.dicts[entity]: bag._process_object(obj)", expect='C31-GIVEN.every-object'),
     dict(id='C31-giv2', file='pony/orm/serialization.py', fn='Bag._process_object', old="                        if related_obj not in bag.dicts[related_obj.__class__]:", new="                        if related_obj not in bag.dicts:", expect='C31-GIVEN.related-visit'),
     dict(id='C31-giv3', file='pony/orm/serialization.py', fn='Bag._process_object', old="                    if process_related_objects and value not in bag.dicts[value.__class__]:", new="                    if process_related_objects:", expect='C31-GIVEN.related-visit'),
